@@ -83,3 +83,12 @@ claim('C09', 'must-follow / exchange-order rules on density-matrix and trajector
       'C09.a density-matrix/state-vector buffer commit discipline incl. copying an aliased initial state; C09.b trajectories renormalised before commit, mixture drawn with its own probabilities; '
       'C09.c with_noise and the simulators call noisy_moments with the circuit\'s own sorted qubits; C09.e copy isolation',
       'Kraus completeness / trace preservation, representation conversions, axis arithmetic, probability tolerances in channel constructors')
+claim('C17', 'finite probe interpretation of the IonQ serializer handlers with the emitted dictionaries read by IonQ\'s documented vocabulary held in the checker; dispatch/handler table agreement; raise-before-dispatch rules; AQT writer/reader positional-layout agreement',
+      'C17.a IonQ QIS payloads of 10 dispatched families == the Cirq gate up to global phase (probe + source-derived exponents), native gates pass their parameters under the documented names; '
+      'C17.b gate-less/parameterized operations rejected before dispatch, unhandled operations raise, validation precedes serialization; C17.c dispatch->handler->mnemonic agreement; '
+      'C17.d AQT op-string table and positional layout shared by writer, legacy reader and simulator',
+      'result decoding / bit order, pauliexp semantics, Pasqal payloads, job and service plumbing')
+claim('C18', 'argument-provenance (def-use) analysis of sampler entry points down to the run_sweep hook, wrapper forwarding rules, writer/reader field agreement of packed result records',
+      'C18.a every Sampler convenience entry point reaches run_sweep(_async) with program/params/repetitions derived from its own arguments and returns the hook\'s result; '
+      'C18.b ResultDict packed-record fields == _unpack_digits parameters, binary flag provenance and encoding agreement, EngineResult job_id; C18.c wrapping samplers forward all arguments and validate first',
+      'endianness / shape / mixed-radix digit conversions, histograms, data frames, string forms, concatenation')
